@@ -143,6 +143,11 @@ def truthy (s : Option String) : Bool :=
   | some t => t != ""
   | none => false
 
+def plainOf (r : Response) : List Assertion := r.assertions.filter (fun a => !a.encrypted)
+def encOf (r : Response) : List Assertion := r.assertions.filter (fun a => a.encrypted)
+/-- decryption proceeds in document order until the first EncryptedData that cannot be decrypted -/
+def decOf (r : Response) : List Assertion := (encOf r).takeWhile (·.decryptable)
+
 /-! ### time checks (validate.py, time_util.py) -/
 
 /-- `validate_on_or_after`: raises when `now > nooa + slack`. -/
@@ -180,7 +185,7 @@ structure St where
   notOnOrAfter : Int := 0
   sessionNooa : Int := 0
   nameId : Option String := none
-  assertion : Option Assertion := none     -- self.assertion
+  hasAssertion : Bool := false             -- `self.assertion is not None`
 deriving Repr, DecidableEq, Inhabited
 
 /-- `authn_statement_ok` (its boolean result is ignored by `_assertion`; it raises or sets state). -/
@@ -293,38 +298,41 @@ def getSubject (cfg : Cfg) (env : Env) (st : St) (a : Assertion) : Except Err St
         else .ok (if s.nameId.isSome then { st' with nameId := s.nameId } else st')
 
 /-- `_assertion(assertion, verified)`; `requireSig` is the current value of `require_signature`. -/
-def checkAssertion (cfg : Cfg) (env : Env) (requireSig verified : Bool) (st : St) (a : Assertion) : Except Err St := do
-  if !a.sig.present then
-    if requireSig then throw .sigMissingAssertion
-  else if !verified && a.sig != .valid then throw .sigBadAssertion
-  let st := { st with assertion := some a }
-  let st ← authnStatementOk cfg env st a
-  let st ← conditionOk cfg env st a
-  let st ← getSubject cfg env st a
-  if env.asynchop && !cfg.allowUnsolicited && st.cameFrom.isNone then throw .cameFrom
-  return st
+def checkAssertion (cfg : Cfg) (env : Env) (requireSig verified : Bool) (st : St) (a : Assertion) : Except Err St :=
+  if !a.sig.present && requireSig then .error .sigMissingAssertion
+  else if a.sig.present && !verified && a.sig != .valid then .error .sigBadAssertion
+  else
+    match authnStatementOk cfg env { st with hasAssertion := true } a with
+    | .error e => .error e
+    | .ok st1 =>
+      match conditionOk cfg env st1 a with
+      | .error e => .error e
+      | .ok st2 =>
+        match getSubject cfg env st2 a with
+        | .error e => .error e
+        | .ok st3 =>
+          if env.asynchop && !cfg.allowUnsolicited && st3.cameFrom.isNone then .error .cameFrom else .ok st3
 
 /-! ### Response level -/
 
-/-- Inner loop of `check_subject_confirmation_in_response_to`: `some b` = decided
-    (`b` = a mismatch was found; `false` = the check was abandoned by `AttributeError`), `none` = go on. -/
-def scanSc (irp : Option String) : List SubjConf → Option Bool
-  | [] => none
+/-- Inner loop of `check_subject_confirmation_in_response_to` (after fixes 9b28429c/…): `true` = a
+    confirmation whose data carries another InResponseTo was found; data-less confirmations are skipped. -/
+def scanSc (irp : Option String) : List SubjConf → Bool
+  | [] => false
   | sc :: more =>
     match sc.data with
-    | none => some false
-    | some d => if d.irt != irp then some true else scanSc irp more
+    | none => scanSc irp more
+    | some d => if d.irt != irp then true else scanSc irp more
 
-/-- `check_subject_confirmation_in_response_to` over the plain assertions: `true` = mismatch. -/
+/-- `check_subject_confirmation_in_response_to` over a list of assertions: `true` = mismatch.
+    An assertion without Subject raises `AttributeError`, which the caller takes for "nothing to
+    compare" (the whole check is abandoned; such an assertion is rejected later by `get_subject`). -/
 def scanAssertions (irp : Option String) : List Assertion → Bool
   | [] => false
   | a :: rest =>
     match a.subject with
     | none => false
-    | some s =>
-      match scanSc irp s.confs with
-      | some b => b
-      | none => scanAssertions irp rest
+    | some s => if scanSc irp s.confs then true else scanAssertions irp rest
 
 /-- `correctly_signed_response` + `_postamble` + `AuthnResponse.loads`.
     Returns the `came_from` found at load time. -/
@@ -334,7 +342,7 @@ def loads (cfg : Cfg) (env : Env) (requireRespSig : Bool) (r : Response) : Excep
   else if env.asynchop then
     match r.inResponseTo.bind (fun i => env.outstanding.lookup i) with
     | some cf =>
-      if scanAssertions r.inResponseTo (r.assertions.filter (fun a => !a.encrypted)) then .error .unsolicited
+      if scanAssertions r.inResponseTo (plainOf r) then .error .unsolicited
       else .ok (some cf)
     | none =>
       if cfg.allowUnsolicited then .ok none else .error .unsolicited
@@ -381,21 +389,21 @@ structure Parsed where
 deriving Repr, Inhabited
 
 /-- `parse_assertion`. -/
-def parseAssertion (cfg : Cfg) (env : Env) (requireSig : Bool) (st : St) (r : Response) : Except Err Parsed := do
-  let plain := r.assertions.filter (fun a => !a.encrypted)
-  let enc := r.assertions.filter (fun a => a.encrypted)
-  if plain.length != 1 && enc.length != 1 && st.assertion.isNone then throw .invalidAssertionCount
-  let st ← checkAll cfg env requireSig false st plain
-  -- decryption proceeds in document order until the first EncryptedData that cannot be decrypted
-  let dec := enc.takeWhile (·.decryptable)
-  -- decrypt_assertions(..., verified=False): a signature on a decrypted assertion is verified here
-  if dec.any (fun a => a.sig.present && a.sig != .valid) then throw .sigBadAssertion
-  let st ← checkAll cfg env requireSig true st dec
-  let used := dec ++ plain
-  let st := match used with
-    | a :: _ => { st with assertion := some a }
-    | [] => st
-  return { st := st, used := used, encLeft := !enc.isEmpty && dec.isEmpty }
+def parseAssertion (cfg : Cfg) (env : Env) (requireSig : Bool) (st : St) (r : Response) : Except Err Parsed :=
+  if (plainOf r).length != 1 && (encOf r).length != 1 && !st.hasAssertion then .error .invalidAssertionCount
+  else
+    match checkAll cfg env requireSig false st (plainOf r) with
+    | .error e => .error e
+    | .ok st1 =>
+      -- decrypt_assertions(..., verified=False): a signature on a decrypted assertion is verified here
+      if (decOf r).any (fun a => a.sig.present && a.sig != .valid) then .error .sigBadAssertion
+      -- the InResponseTo comparison of `loads`, repeated on the decrypted assertions (fix 9b28429c)
+      else if env.asynchop && (r.inResponseTo.bind (fun i => env.outstanding.lookup i)).isSome
+          && scanAssertions r.inResponseTo (decOf r) then .error .unsolicited
+      else
+        match checkAll cfg env requireSig true st1 (decOf r) with
+        | .error e => .error e
+        | .ok st2 => .ok { st := st2, used := decOf r ++ plainOf r, encLeft := !(encOf r).isEmpty && (decOf r).isEmpty }
 
 /-- `AuthnResponse.verify`: `none` = returned None. -/
 def verify (cfg : Cfg) (env : Env) (requireSig : Bool) (st : St) (r : Response) : Except Err (Option Parsed) :=
@@ -438,9 +446,9 @@ def process (cfg : Cfg) (env : Env) (r : Response) : Outcome :=
         match p with
         | none => .noIdentity
         | some p =>
-          match p.st.assertion with
-          | none => .noIdentity
-          | some a =>
+          match p.used with            -- self.assertion = self.assertions[0]
+          | [] => .noIdentity
+          | a :: _ =>
             match a.authn with
             | s :: _ =>
               .identity {
